@@ -25,7 +25,8 @@ Theorems.
 * `C07_spine_label_chain`: while the code of `u` runs, for a labelling `L` of the task stack (`P17.LabA`: every entry
   labelled with the task on whose behalf it was pushed): `P29.spine s = u :: P17.lspine L` - `u`, the label of `u`'s
   entry, the label of that task's entry, ... down to the root; every one of them waits for `u`; the callers of the
-  synchronous calls in progress are among them.  `C07_spine_unique`: every labelling gives the same chain.
+  synchronous calls in progress are among them.  `C07_spine_unique`: every labelling that satisfies `P26.Spine` (the
+  hypothesis of both theorems; not every `P17.LabA` labelling) gives the same chain.
 * `C07_resumed_iff_on_spine`: the executable form of `C06_resumed_iff_on_spine`: an AsyncContext of an open with-block
   of `t` is resumed iff `t ∈ P29.spine s` (any state).
 * `C07_read_value_tree`: whenever the observer of C07 makes a claim about a read of the running task `u`
@@ -99,7 +100,7 @@ theorem C07_spine_label_chain (s : State) (h : P10.WSReach s) (hg : s.guardFired
     · rw [← sp.stk]
       exact P29.label_mem_stack sp.lab h1
 
-/-- every labelling of the task stack gives the same chain of labels -/
+/-- every labelling of the task stack that satisfies `P26.Spine` gives the same chain of labels -/
 theorem C07_spine_unique (s : State) (h : P10.WSReach s) (hg : s.guardFired = false) (u : Nat)
     (old : Option Nat) (rest : List Ctl) (hctl : s.ctl = .gen u old :: rest) (L L' : List (Nat × Nat))
     (sp : P26.Spine s L) (sp' : P26.Spine s L') : lspine L = lspine L' := by
